@@ -118,4 +118,387 @@ theorem takeDigits_digits (ds : List Nat) (hd : ∀ d ∈ ds, d < 10) (tail : Li
     · rw [Nat.add_mul, Nat.mul_assoc, Nat.mul_comm 10 (10 ^ ds.length)]; omega
     · congr 1; omega
 
+
+/-! ### the decimal string of a nibble string -/
+
+theorem toks_digits (ds : List Nat) (hd : ∀ d ∈ ds, d < 10) : ds.flatMap nibChars = ds := by
+  induction ds with
+  | nil => rfl
+  | cons d ds ih =>
+    have : d < 10 := hd d (List.mem_cons_self ..)
+    have h12 : ¬ d = 12 := by omega
+    simp only [List.flatMap_cons, nibChars, h12, if_false, List.cons_append, List.nil_append]
+    rw [ih (fun x hx => hd x (List.mem_cons_of_mem _ hx))]
+
+theorem length_pos_of_valOf (ds : List Nat) (h : 0 < valOf ds) : ds ≠ [] := by
+  intro h0; subst h0; simp [valOf] at h
+
+/-- digits, optionally followed by `e[-]digits` -/
+theorem parseUnsigned_int (D : List Nat) (hD : ∀ d ∈ D, d < 10) (hne : D ≠ []) :
+    parseUnsigned D = some (valOf D, 0) := by
+  have h := takeDigits_digits D hD [] (by intro c r h; cases h) 0 0
+  simp only [List.append_nil, Nat.zero_mul, Nat.zero_add] at h
+  have hl : D.length ≠ 0 := by
+    intro h0; exact hne (List.eq_nil_of_length_eq_zero h0)
+  simp [parseUnsigned, h, hl]
+
+theorem parseUnsigned_exp (D E : List Nat) (hD : ∀ d ∈ D, d < 10) (hE : ∀ d ∈ E, d < 10)
+    (hne : D ≠ []) (hEne : E ≠ []) (eneg : Bool) :
+    parseUnsigned (D ++ (11 :: (if eneg then 14 :: E else E)))
+      = some (valOf D, if eneg then -(valOf E : Int) else (valOf E : Int)) := by
+  have h := takeDigits_digits D hD (11 :: (if eneg then 14 :: E else E))
+    (by intro c r h; injection h with h1 _; omega) 0 0
+  simp only [Nat.zero_mul, Nat.zero_add] at h
+  have hl : D.length ≠ 0 := by
+    intro h0; exact hne (List.eq_nil_of_length_eq_zero h0)
+  have hE' := takeDigits_digits E hE [] (by intro c r h; cases h) 0 0
+  simp only [List.append_nil, Nat.zero_mul, Nat.zero_add] at hE'
+  have hle : E.length ≠ 0 := by
+    intro h0; exact hEne (List.eq_nil_of_length_eq_zero h0)
+  obtain ⟨e0, Er, rfl⟩ : ∃ e0 Er, E = e0 :: Er := by
+    cases E with
+    | nil => exact absurd rfl hEne
+    | cons a b => exact ⟨a, b, rfl⟩
+  have he0 : e0 < 10 := hE e0 (List.mem_cons_self ..)
+  cases eneg with
+  | true =>
+    simp only [if_true] at h ⊢
+    simp [parseUnsigned, h, hl, hE', hle]
+  | false =>
+    simp only [Bool.false_eq_true, if_false] at h ⊢
+    have h14 : ¬ e0 = 14 := by omega
+    simp [parseUnsigned, h, hl]
+    split
+    · rename_i r' heq; injection heq with h1 _; omega
+    · simp [hE', hle]
+
+/-- digits `.` digits (either part may be empty, not both) -/
+theorem parseUnsigned_frac (D1 D2 : List Nat) (h1 : ∀ d ∈ D1, d < 10) (h2 : ∀ d ∈ D2, d < 10)
+    (hne : D1.length + D2.length ≠ 0) :
+    parseUnsigned (D1 ++ (10 :: D2)) = some (valOf (D1 ++ D2), -(D2.length : Int)) := by
+  have h := takeDigits_digits D1 h1 (10 :: D2) (by intro c r h; injection h with h1 _; omega) 0 0
+  simp only [Nat.zero_mul, Nat.zero_add] at h
+  have h' := takeDigits_digits D2 h2 [] (by intro c r h; cases h) (valOf D1) 0
+  simp only [List.append_nil, Nat.zero_add] at h'
+  simp [parseUnsigned, h, h', valOf_append]
+  intro hd1 hd2
+  subst hd1; subst hd2
+  simp at hne
+
+
+/-! ### what the written nibble string denotes -/
+
+theorem stripZeros_pos (fuel i : Nat) (h : 0 < i) : 0 < stripZeros fuel i := by
+  induction fuel generalizing i with
+  | zero => exact h
+  | succ fuel ih =>
+    simp only [stripZeros]
+    split
+    · apply ih; omega
+    · exact h
+
+theorem parseDec_sign (neg : Bool) (body : List Nat) (hb : ∀ r, body ≠ 14 :: r) :
+    parseDec ((if neg then [14] else []) ++ body)
+      = (parseUnsigned body).map fun v => (neg, v.1, v.2) := by
+  cases neg with
+  | true => simp [parseDec]
+  | false =>
+    simp only [Bool.false_eq_true, if_false, List.nil_append]
+    cases body with
+    | nil => rfl
+    | cons c r =>
+      have hc : ¬ c = 14 := fun h => hb r (by rw [h])
+      simp [parseDec, hc]
+
+theorem digits_head_ne (D : List Nat) (hD : ∀ d ∈ D, d < 10) (hne : D ≠ []) (tail : List Nat) :
+    ∀ r, D ++ tail ≠ 14 :: r := by
+  intro r h
+  cases D with
+  | nil => exact hne rfl
+  | cons d ds =>
+    simp only [List.cons_append] at h
+    injection h with h1 _
+    have := hD d (List.mem_cons_self ..)
+    omega
+
+theorem toks_head0 (neg : Bool) : (if neg then [14] else ([] : List Nat)).flatMap nibChars
+    = if neg then [14] else [] := by
+  cases neg <;> simp [nibChars]
+
+/-- The decimal string written by `encodeFloat` for the nine-digit integer `i` and the position
+`l` of the decimal point denotes exactly `±0.d₁d₂… · 10^l`: with `i'` the digits of `i` without
+trailing zeros and `m` their number, `ParseFloat`'s grammar reads it as `i'·10^k · 10^(l-m-k)`
+for some `k ≤ 2` (the layouts "digits 0" and "digits 00" append zeros to the mantissa). -/
+theorem parseDec_realNibbles (neg : Bool) (i : Nat) (hi : 0 < i) (l : Int) :
+    ∃ k : Nat, k ≤ 2 ∧ parseDec ((realNibbles neg i l).flatMap nibChars)
+      = some (neg, stripZeros 20 i * 10 ^ k,
+          l - ((digitsOf (stripZeros 20 i)).length : Int) - (k : Int)) := by
+  have hpos := stripZeros_pos 20 i hi
+  generalize hi' : stripZeros 20 i = i' at *
+  have hD := digitsOf_lt i'
+  have hval := valOf_digitsOf i'
+  generalize hDD : digitsOf i' = D at *
+  have hne : D ≠ [] := length_pos_of_valOf D (by omega)
+  have hlen : D.length ≠ 0 := fun h0 => hne (List.eq_nil_of_length_eq_zero h0)
+  unfold realNibbles
+  simp only [hi', hDD]
+  split
+  · -- digits e+N
+    rename_i h1
+    refine ⟨0, by omega, ?_⟩
+    have hk : 0 < (l - (D.length : Int)).toNat := by omega
+    have hE := digitsOf_lt (l - (D.length : Int)).toNat
+    have hEv := valOf_digitsOf (l - (D.length : Int)).toNat
+    generalize digitsOf (l - (D.length : Int)).toNat = E at *
+    have hEne : E ≠ [] := length_pos_of_valOf E (by omega)
+    simp only [List.flatMap_append, toks_head0, toks_digits D hD, toks_digits E hE]
+    have : ([11] : List Nat).flatMap nibChars = [11] := by simp [nibChars]
+    rw [this]
+    have hb := digits_head_ne D hD hne (11 :: E)
+    simp only [List.append_assoc, List.singleton_append]
+    rw [parseDec_sign neg _ hb]
+    have := parseUnsigned_exp D E hD hE hne hEne false
+    simp only [Bool.false_eq_true, if_false] at this
+    rw [this, hval, hEv]
+    simp only [Option.map_some, Nat.pow_zero, Nat.mul_one]
+    congr 3
+    omega
+  · split
+    · -- digits 00
+      rename_i h1 h2
+      refine ⟨2, by omega, ?_⟩
+      simp only [List.flatMap_append, toks_head0, toks_digits D hD]
+      have : ([0, 0] : List Nat).flatMap nibChars = [0, 0] := by simp [nibChars]
+      rw [this]
+      have hb := digits_head_ne D hD hne [0, 0]
+      rw [parseDec_sign neg _ hb]
+      have hD2 : ∀ d ∈ D ++ [0, 0], d < 10 := by
+        intro d hd
+        rcases List.mem_append.mp hd with h | h
+        · exact hD d h
+        · simp at h; omega
+      rw [parseUnsigned_int (D ++ [0, 0]) hD2 (by simp), valOf_append, hval]
+      have e0 : valOf [0, 0] = 0 := rfl
+      have e1 : ([0, 0] : List Nat).length = 2 := rfl
+      simp only [Option.map_some, e0, e1, Nat.add_zero]
+      congr 3
+      omega
+    · split
+      · -- digits 0
+        rename_i h1 h2 h3
+        refine ⟨1, by omega, ?_⟩
+        simp only [List.flatMap_append, toks_head0, toks_digits D hD]
+        have : ([0] : List Nat).flatMap nibChars = [0] := by simp [nibChars]
+        rw [this]
+        have hb := digits_head_ne D hD hne [0]
+        rw [parseDec_sign neg _ hb]
+        have hD2 : ∀ d ∈ D ++ [0], d < 10 := by
+          intro d hd
+          rcases List.mem_append.mp hd with h | h
+          · exact hD d h
+          · simp at h; omega
+        rw [parseUnsigned_int (D ++ [0]) hD2 (by simp), valOf_append, hval]
+        have e0 : valOf [0] = 0 := rfl
+        have e1 : ([0] : List Nat).length = 1 := rfl
+        simp only [Option.map_some, e0, e1, Nat.add_zero]
+        congr 3
+        omega
+      · split
+        · -- integer
+          rename_i h1 h2 h3 h4
+          refine ⟨0, by omega, ?_⟩
+          simp only [List.flatMap_append, toks_head0, toks_digits D hD]
+          have hb := digits_head_ne D hD hne []
+          simp only [List.append_nil] at hb
+          rw [parseDec_sign neg _ hb, parseUnsigned_int D hD hne, hval]
+          simp only [Option.map_some, Nat.pow_zero, Nat.mul_one]
+          congr 3
+          omega
+        · split
+          · -- dd.ddd
+            rename_i h1 h2 h3 h4 h5
+            refine ⟨0, by omega, ?_⟩
+            have hlt : l.toNat < D.length := by omega
+            have hD1 : ∀ d ∈ D.take l.toNat, d < 10 := fun d hd => hD d (List.mem_of_mem_take hd)
+            have hD2 : ∀ d ∈ D.drop l.toNat, d < 10 := fun d hd => hD d (List.mem_of_mem_drop hd)
+            simp only [List.flatMap_append, toks_head0, toks_digits _ hD1, toks_digits _ hD2]
+            have : ([10] : List Nat).flatMap nibChars = [10] := by simp [nibChars]
+            rw [this]
+            have hne1 : D.take l.toNat ≠ [] := by
+              intro h0
+              have hl0 := congrArg List.length h0
+              rw [List.length_take] at hl0
+              simp only [List.length_nil] at hl0
+              have : min l.toNat D.length = l.toNat := Nat.min_eq_left (by omega)
+              omega
+            have hb := digits_head_ne (D.take l.toNat) hD1 hne1 (10 :: D.drop l.toNat)
+            simp only [List.append_assoc, List.singleton_append]
+            rw [parseDec_sign neg _ hb]
+            have := parseUnsigned_frac (D.take l.toNat) (D.drop l.toNat) hD1 hD2
+              (by simp [List.length_take, List.length_drop]; omega)
+            rw [this, List.take_append_drop, hval]
+            simp only [Option.map_some, Nat.pow_zero, Nat.mul_one, List.length_drop]
+            congr 3
+            omega
+          · split
+            · -- .ddd
+              rename_i h1 h2 h3 h4 h5 h6
+              refine ⟨0, by omega, ?_⟩
+              simp only [List.flatMap_append, toks_head0, toks_digits D hD]
+              have : ([10] : List Nat).flatMap nibChars = [10] := by simp [nibChars]
+              rw [this]
+              have hb : ∀ r, 10 :: D ≠ 14 :: r := by
+                intro r h; simp at h
+              simp only [List.append_assoc, List.singleton_append]
+              rw [parseDec_sign neg _ hb]
+              have := parseUnsigned_frac [] D (by simp) hD (by simp; exact hne)
+              simp only [List.nil_append] at this
+              rw [this, hval]
+              simp only [Option.map_some, Nat.pow_zero, Nat.mul_one]
+              congr 3
+              omega
+            · split
+              · -- .0ddd
+                rename_i h1 h2 h3 h4 h5 h6 h7
+                refine ⟨0, by omega, ?_⟩
+                simp only [List.flatMap_append, toks_head0, toks_digits D hD]
+                have : ([10, 0] : List Nat).flatMap nibChars = [10, 0] := by simp [nibChars]
+                rw [this]
+                have hb : ∀ r, 10 :: 0 :: D ≠ 14 :: r := by
+                  intro r h; simp at h
+                simp only [List.append_assoc, List.cons_append, List.nil_append]
+                rw [parseDec_sign neg _ hb]
+                have hD0 : ∀ d ∈ 0 :: D, d < 10 := by
+                  intro d hd
+                  simp only [List.mem_cons] at hd
+                  rcases hd with rfl | hd
+                  · omega
+                  · exact hD d hd
+                have := parseUnsigned_frac [] (0 :: D) (by simp) hD0 (by simp)
+                simp only [List.nil_append] at this
+                rw [this, valOf_cons, hval]
+                simp only [Option.map_some, Nat.pow_zero, Nat.mul_one, Nat.zero_mul, Nat.zero_add,
+                  List.length_cons]
+                congr 3
+                omega
+              · -- digits e-N
+                rename_i h1 h2 h3 h4 h5 h6 h7
+                refine ⟨0, by omega, ?_⟩
+                have hk : 0 < (-l + (D.length : Int)).toNat := by omega
+                have hE := digitsOf_lt (-l + (D.length : Int)).toNat
+                have hEv := valOf_digitsOf (-l + (D.length : Int)).toNat
+                generalize digitsOf (-l + (D.length : Int)).toNat = E at *
+                have hEne : E ≠ [] := length_pos_of_valOf E (by omega)
+                simp only [List.flatMap_append, toks_head0, toks_digits D hD, toks_digits E hE]
+                have : ([12] : List Nat).flatMap nibChars = [11, 14] := by simp [nibChars]
+                rw [this]
+                have hb := digits_head_ne D hD hne (11 :: 14 :: E)
+                simp only [List.append_assoc, List.cons_append, List.nil_append]
+                rw [parseDec_sign neg _ hb]
+                have := parseUnsigned_exp D E hD hE hne hEne true
+                simp only [if_true] at this
+                rw [this, hval, hEv]
+                simp only [Option.map_some, Nat.pow_zero, Nat.mul_one]
+                congr 3
+                omega
+
+
+/-! ### bytes: encodeFloat then decodeFloat -/
+
+theorem realNibbles_lt (neg : Bool) (i : Nat) (l : Int) :
+    ∀ x ∈ realNibbles neg i l, x < 15 ∧ x ≠ 13 := by
+  have hD := digitsOf_lt (stripZeros 20 i)
+  have hd : ∀ (ds : List Nat), (∀ d ∈ ds, d < 10) → ∀ x ∈ ds, x < 15 ∧ x ≠ 13 := by
+    intro ds h x hx; have := h x hx; omega
+  have hh : ∀ x ∈ (if neg then [14] else ([] : List Nat)), x < 15 ∧ x ≠ 13 := by
+    intro x hx; cases neg <;> simp at hx; omega
+  intro x hx
+  unfold realNibbles at hx
+  simp only at hx
+  have hmem : ∀ (a b : List Nat), x ∈ a ++ b → x ∈ a ∨ x ∈ b := fun a b h => List.mem_append.mp h
+  split at hx
+  · rcases hmem _ _ hx with h | h
+    · exact hh x h
+    · rcases hmem _ _ h with h | h
+      · rcases hmem _ _ h with h | h
+        · exact hd _ hD x h
+        · simp at h; omega
+      · exact hd _ (digitsOf_lt _) x h
+  · split at hx
+    · rcases hmem _ _ hx with h | h
+      · exact hh x h
+      · rcases hmem _ _ h with h | h
+        · exact hd _ hD x h
+        · simp at h; omega
+    · split at hx
+      · rcases hmem _ _ hx with h | h
+        · exact hh x h
+        · rcases hmem _ _ h with h | h
+          · exact hd _ hD x h
+          · simp at h; omega
+      · split at hx
+        · rcases hmem _ _ hx with h | h
+          · exact hh x h
+          · exact hd _ hD x h
+        · split at hx
+          · rcases hmem _ _ hx with h | h
+            · rcases hmem _ _ h with h | h
+              · rcases hmem _ _ h with h | h
+                · exact hh x h
+                · exact hd _ hD x (List.mem_of_mem_take h)
+              · simp at h; omega
+            · exact hd _ hD x (List.mem_of_mem_drop h)
+          · split at hx
+            · rcases hmem _ _ hx with h | h
+              · rcases hmem _ _ h with h | h
+                · exact hh x h
+                · simp at h; omega
+              · exact hd _ hD x h
+            · split at hx
+              · rcases hmem _ _ hx with h | h
+                · rcases hmem _ _ h with h | h
+                  · exact hh x h
+                  · simp at h; omega
+                · exact hd _ hD x h
+              · rcases hmem _ _ hx with h | h
+                · exact hh x h
+                · rcases hmem _ _ h with h | h
+                  · rcases hmem _ _ h with h | h
+                    · exact hd _ hD x h
+                    · simp at h; omega
+                  · exact hd _ (digitsOf_lt _) x h
+
+/-- `decodeFloat` applied to the bytes `encodeFloat` wrote for the nine-digit integer `i` and
+decimal-point position `l` delivers exactly what `ParseFloat` + clamping make of the decimal
+`i'·10^k · 10^(l-m-k)` (`i'` = digits of `i` without trailing zeros, `m` their number, `k ≤ 2`),
+and consumes exactly the bytes written. -/
+theorem decodeReal_encodeReal (neg : Bool) (i : Nat) (hi : 0 < i) (l : Int) (rest : Bytes) :
+    ∃ k : Nat, k ≤ 2 ∧ decodeReal (encodeReal neg i l ++ rest) =
+      match clampValue (neg, stripZeros 20 i * 10 ^ k,
+          l - ((digitsOf (stripZeros 20 i)).length : Int) - (k : Int)) with
+      | .ok (ng, m, e) => .ok (.real ng m e, rest)
+      | .err e => .err e
+      | .panic s => .panic s := by
+  obtain ⟨k, hk, hparse⟩ := parseDec_realNibbles neg i hi l
+  refine ⟨k, hk, ?_⟩
+  have hne : ¬ i = 0 := by omega
+  unfold encodeReal decodeReal
+  simp only [hne, if_false]
+  have hlt := realNibbles_lt neg i l
+  rw [floatNibbles_pack rest _ (fun x hx => (hlt x hx).1)]
+  simp only
+  have h13 : (realNibbles neg i l).any (fun x => decide (x = 13)) = false := by
+    rw [List.any_eq_false]
+    intro x hx
+    have := (hlt x hx).2
+    simpa using this
+  rw [h13]
+  simp only [Bool.false_eq_true, if_false, floatValue, hparse]
+  generalize clampValue (neg, stripZeros 20 i * 10 ^ k,
+    l - ((digitsOf (stripZeros 20 i)).length : Int) - (k : Int)) = cv
+  cases cv with
+  | ok v => obtain ⟨a, b, c⟩ := v; rfl
+  | err e => rfl
+  | panic s => rfl
+
 end SfntV.Cff
